@@ -9,6 +9,7 @@
 //! * helpers for the value conventions of DESIGN.md (little-endian byte
 //!   tuples for anything that may exceed 31 bits).
 pub mod interpose;
+pub mod opjson;
 
 use serde_json::{json, Value};
 use std::io::{BufRead, BufReader, BufWriter, Write};
